@@ -912,10 +912,8 @@ pub fn lis(
     let block_index = {
         let block = control_flow_graph.new_block()?;
 
-        let src = Expression::or(
-            Expression::and(src.clone(), expr_const(0x0000_ffff, 32))?,
-            Expression::shl(src, expr_const(16, 32))?,
-        )?;
+        // lis rD, SI  ==  addis rD, 0, SI: the immediate shifted left by 16
+        let src = Expression::shl(src, expr_const(16, 32))?;
 
         block.assign(dst, src);
 
